@@ -176,7 +176,7 @@ func (g *G) svcs() []string {
 
 func ipFor(ns, svc string, i int) string {
 	n := 1
-	if ns == "b" {
+	if ns == "b" || ns == "ab" {
 		n = 2
 	}
 	return fmt.Sprintf("10.%d.%s.%d", n, strings.TrimPrefix(svc, "s"), i)
